@@ -230,6 +230,27 @@ def case_form(rep):
                                    ("mixed", mixw.assemble(parallel=parallel).toarray(), Kmw)):
                 run.compare("form.dx", "form=%s clause=dx-is-the-differential-volume" % name, maxabs(got - ref) / maxabs(ref), 1e-12,
                             "Form(dx=w) differs from the equivalent IntegralForm(dV=w)", unit="form:dx:" + name, config=(fam, "dx", name, parallel))
+        # a weak form that is NOT symmetric in (v, u) (convection-like: v . grad(u) w + 2 grad(v) : u (x) w), against naive loops
+        # over cells, quadrature points, nodes and components: roles of test and trial function, rows and columns
+        wv = rng.uniform(-1.5, 1.5, d)
+        nons = fem.Form(v=field, u=field, kwargs={"w": wv})(lambda: [lambda v, u, w: np.einsum("i...,ij...,j->...", v, grad(u), w)
+                                                                                     + 2 * np.einsum("ij...,i...,j->...", grad(v), u, w)])
+        nq, nc = reg.dV.shape
+        hh = np.broadcast_to(reg.h, (reg.h.shape[0], nq, nc))
+        dh = np.broadcast_to(reg.dhdX, (reg.h.shape[0], d, nq, nc))
+        Kn = np.zeros((mesh.npoints * d, mesh.npoints * d))
+        dhw = np.einsum("ajqc,j->aqc", dh, wv)
+        blk = np.einsum("aqc,bqc,qc->cab", hh, dhw, reg.dV) + 2 * np.einsum("aqc,bqc,qc->cab", dhw, hh, reg.dV)
+        for c in range(nc):
+            for a in range(mesh.cells.shape[1]):
+                for b_ in range(mesh.cells.shape[1]):
+                    for i in range(d):
+                        Kn[d * mesh.cells[c, a] + i, d * mesh.cells[c, b_] + i] += blk[c, a, b_]
+        for parallel in (False, True):
+            got = nons.assemble(parallel=parallel, sym=False).toarray()
+            run.compare("form.nonsymmetric", "form=convection clause=entries parallel=%s" % parallel, maxabs(got - Kn) / maxabs(Kn), 1e-12,
+                        "a weak form that is not symmetric in (v, u) assembles other entries than the defining sum (rows = test function)",
+                        unit="form:nonsymmetric", config=(fam, "nonsymmetric", parallel))
         # thread hooks: recording Thread + yield injection in `contribution` and the weak forms
         orig_B, orig_L = EB.Thread, EL.Thread
         EB.Thread = EL.Thread = sched.RecordingThread
@@ -310,7 +331,7 @@ SPEC = {
                        "kind:planestrain uniform", "mixed:cartesian:n=3", "mixed:cartesian:n=2", "mixed:planestrain:n=3",
                        "mixed:planestrain:n=2", "mixed:axisymmetric:n=3", "mixed:axisymmetric:n=2", "assemble(values=integrate())", "block-mode=1", "block-mode=2", "block-mode=3", "none-block", "parallel-einsum", "dual-points-per-cell=1",
                        "dual-points-per-cell=4", "dual-points-per-cell=3", "distinct-thread-completion-orders>=2",
-                       "form:linear:parallel=True", "form:linear:parallel=False", "form:parallel-basis"]
+                       "form:linear:parallel=True", "form:linear:parallel=False", "form:parallel-basis", "form:nonsymmetric"]
     + ["form:%s:parallel=%s:sym=%s" % (k, p, s) for k in ("bilinear", "mixed") for p in (True, False) for s in (True, False)],
     "rule": ("random integrand arrays of every admissible tensor order (full and (1,1)-broadcast trailing axes) for single fields "
              "(Cartesian 2D/3D vector, scalar, plane strain with 3D integrands, axisymmetric) on 9 element families incl. uniform "
